@@ -1218,6 +1218,8 @@ func binaryKillFamily(w *bufio.Writer, stride, offset int) int {
 				for _, ed := range [][2]string{{"w.0.2", "w.0.1"}, {"w.1.2", "w.1.1"}} {
 					for _, cs := range specs(8) {
 						emit(t, "r.AB.0.-", ed[0], "r."+set+"."+f+"."+cs, ed[1], "r.AB.0.-")
+						// … and without the revert: what the killed run left must not pass for a completed run on the NEW inputs
+						emit(t, "r.AB.0.-", ed[0], "r."+set+"."+f+"."+cs, "r.AB.0.-")
 					}
 				}
 			}
@@ -1325,6 +1327,9 @@ func gen(w *bufio.Writer, args map[string]string) {
 		for _, t := range []int{1, 2} { // always: a kill from inside each task position, a torn and a completed write
 			for _, cs := range []string{"K1", "K2", "S1", "S2", "P1t9", "P3t70", "P2", "P4"} {
 				fmt.Fprintf(w, "T%db r.AB.0.- w.0.2 r.AB.1.%s w.0.1 r.AB.0.-\n", t, cs)
+			}
+			for _, cs := range []string{"K1", "S1", "S2"} {
+				fmt.Fprintf(w, "T%db r.AB.0.- w.0.2 r.AB.0.%s r.AB.0.-\n", t, cs)
 			}
 		}
 		for _, cs := range []string{"K1", "P1", "P2t20", "P4"} {
